@@ -1297,6 +1297,58 @@ Section HistoryProofs.
     - exact P2.
   Qed.
 
+  (* On a healthy target (no fault; not a file store) the result of every call of a history is a function
+     of that call's own input: it does not depend on the target's content, on the calls made before, or on
+     the order in which the calls of the history are made. *)
+  Definition pure_result (c : call) : result :=
+    if must_reject (c_fn c) (c_at c) (c_opts c) then Err (reject_err (c_fn c) (c_at c) (c_opts c))
+    else match ensure_created (o_ann (c_opts c)) (created_key (c_fn c)) (c_now c) with
+         | None => Err EInvalidDateTime
+         | Some ann =>
+           Ok (result_desc marshal H (c_fn c) (requested_manifest H (c_fn c) (c_at c) (c_opts c) ann))
+              (requested_manifest H (c_fn c) (c_at c) (c_opts c) ann)
+         end.
+
+  Lemma pack_pure_result tc s c s' r :
+    t_key tc <> KFile ->
+    pack marshal H (c_fn c) tc None s (c_at c) (c_opts c) (c_now c) = (s', r) -> r = pure_result c.
+  Proof.
+    intros NF P. unfold pure_result.
+    destruct (must_reject (c_fn c) (c_at c) (c_opts c)) eqn:MR.
+    - rewrite (reject_exact marshal H _ tc None s _ _ (c_now c) MR) in P. now injection P as _ <-.
+    - destruct (healthy_target_classification marshal H H_empty _ _ _ _ _ _ _ _ NF P)
+        as [(MR' & _) | [(_ & EC & ->) | (_ & ann & EC & ->)]]; try congruence; now rewrite EC.
+  Qed.
+
+  Theorem history_results_pure tc cs : forall s s' rs,
+    t_key tc <> KFile ->
+    run_calls marshal H tc None s cs = (s', rs) -> rs = map pure_result cs.
+  Proof.
+    induction cs as [|c cs IH]; intros s s' rs NF R; simpl in R.
+    - now injection R as _ <-.
+    - destruct (pack marshal H (c_fn c) tc None s (c_at c) (c_opts c) (c_now c)) as [s1 r1] eqn:P.
+      destruct (run_calls marshal H tc None s1 cs) as [s2 rs2] eqn:R2. injection R as _ <-.
+      simpl. f_equal; [eapply pack_pure_result; eauto | eapply IH; eauto].
+  Qed.
+
+  (* hence any other order of the same calls, on any healthy target with any content, returns the same
+     results, call for call *)
+  Corollary history_order_irrelevant tc1 tc2 cs cs' s1 s2 s1' s2' rs rs' :
+    t_key tc1 <> KFile -> t_key tc2 <> KFile ->
+    Permutation cs cs' ->
+    run_calls marshal H tc1 None s1 cs = (s1', rs) ->
+    run_calls marshal H tc2 None s2 cs' = (s2', rs') ->
+    Permutation rs rs' /\ (forall c r, In (c, r) (combine cs rs) -> In (c, r) (combine cs' rs')).
+  Proof.
+    intros N1 N2 P R1 R2.
+    rewrite (history_results_pure _ _ _ _ _ N1 R1), (history_results_pure _ _ _ _ _ N2 R2).
+    split; [now apply Permutation_map|].
+    intros c r I. assert (E : forall l, combine l (map pure_result l) = map (fun x => (x, pure_result x)) l).
+    { induction l; simpl; congruence. }
+    rewrite E in *. apply in_map_iff in I as (x & Ex & Ix). apply in_map_iff. exists x. split; auto.
+    eapply Permutation_in; eauto.
+  Qed.
+
   (* the number of results is the number of calls: every call ends (no call is lost or repeated) *)
   Lemma run_calls_length tc fa cs : forall s s' rs,
     run_calls marshal H tc fa s cs = (s', rs) -> length rs = length cs.
